@@ -24,9 +24,33 @@ Proof. unfold frame. rewrite app_length. reflexivity. Qed.
 
 (* ------------------------------------------------------------------ readBytes *)
 
+Lemma take_spec : forall s n,
+  take n s = if n <=? lenN s then Some (firstn (N.to_nat n) s, skipn (N.to_nat n) s) else None.
+Proof.
+  induction s as [|c r IH]; intros n.
+  - cbn [take]. destruct (N.eqb_spec n 0) as [->|Hn]; [reflexivity|].
+    destruct (N.leb_spec n (lenN (@nil N))) as [H|H]; [unfold lenN in H; simpl in H; lia|reflexivity].
+  - cbn [take]. destruct (N.eqb_spec n 0) as [->|Hn]; [reflexivity|].
+    rewrite IH.
+    assert (Hl : lenN (c :: r) = lenN r + 1) by (unfold lenN; simpl length; lia).
+    destruct (N.leb_spec (n - 1) (lenN r)) as [H|H];
+      destruct (N.leb_spec n (lenN (c :: r))) as [H'|H']; try lia; [|reflexivity].
+    replace (N.to_nat n) with (S (N.to_nat (n - 1))) by lia. reflexivity.
+Qed.
+
+(* the characterisation used everywhere below *)
+Lemma read_bytes_spec n s :
+  read_bytes n s =
+    if n <=? lenN s then (mkPbuf (firstn (N.to_nat n) s) 0, skipn (N.to_nat n) s, ENone)
+    else match s with
+         | [] => (mkPbuf [] n, [], EEOF)
+         | _ :: _ => (mkPbuf s (n - lenN s), [], EUnexp)
+         end.
+Proof. unfold read_bytes. rewrite take_spec. destruct (n <=? lenN s); reflexivity. Qed.
+
 Lemma read_bytes_exact a r : read_bytes (lenN a) (a ++ r) = (mkPbuf a 0, r, ENone).
 Proof.
-  unfold read_bytes. rewrite lenN_app.
+  rewrite read_bytes_spec. rewrite lenN_app.
   destruct (N.leb_spec (lenN a) (lenN a + lenN r)) as [_|H]; [|lia].
   unfold lenN. rewrite Nat2N.id.
   rewrite firstn_app, Nat.sub_diag, firstn_all, firstn_O, app_nil_r.
@@ -42,14 +66,14 @@ Lemma read_bytes_short n s : lenN s < n ->
                    | _ :: _ => (mkPbuf s (n - lenN s), [], EUnexp)
                    end.
 Proof.
-  intros H. unfold read_bytes. destruct (N.leb_spec n (lenN s)); [lia|reflexivity].
+  intros H. rewrite read_bytes_spec. destruct (N.leb_spec n (lenN s)); [lia|reflexivity].
 Qed.
 
 (* a successful read returns exactly the requested bytes and the rest of the stream *)
 Lemma read_bytes_ok n s b s' : read_bytes n s = (b, s', ENone) ->
   s = pb_data b ++ s' /\ pb_pad b = 0 /\ lenN (pb_data b) = n.
 Proof.
-  unfold read_bytes. destruct (N.leb_spec n (lenN s)) as [H|H].
+  rewrite read_bytes_spec. destruct (N.leb_spec n (lenN s)) as [H|H].
   - intros [= <- <-]. cbn [pb_data pb_pad]. rewrite firstn_skipn. repeat split.
     unfold lenN in *. rewrite firstn_length. lia.
   - destruct s; discriminate.
@@ -146,7 +170,7 @@ Qed.
 
 Lemma read_bytes_shrinks n s b s' e : read_bytes n s = (b, s', e) -> (length s' <= length s)%nat.
 Proof.
-  unfold read_bytes. destruct (n <=? lenN s).
+  rewrite read_bytes_spec. destruct (n <=? lenN s).
   - intros [= _ <- _]. rewrite skipn_length. lia.
   - destruct s; intros [= _ <- _]; simpl; lia.
 Qed.
@@ -184,7 +208,7 @@ Proof.
     + intros H. apply (Hitem (mkPbuf [] 0) s1 EUnexp); [right; discriminate | exact H].
     + (* short read of the prefix: the stream is exhausted, the body read cannot succeed *)
       assert (Hs1 : s1 = [] /\ s <> []).
-      { unfold read_bytes in E1. destruct (4 <=? lenN s); [discriminate|].
+      { rewrite read_bytes_spec in E1. destruct (4 <=? lenN s); [discriminate|].
         destruct s; [discriminate|]. split; congruence. }
       destruct Hs1 as [-> Hsne].
       destruct (read_bytes (be_val (pb_bytes lb)) []) as [[m s2] e2] eqn:E2.
